@@ -237,12 +237,15 @@ def run_check(pid, tier):
         findings = load_findings()
         known_hit = {}
         unlisted = []
+        known_obs = {}
         for key in sorted(viols, key=lambda k: (viols[k]["ord"], k)):
             v = viols[key]
             f = match_finding(pid, v, findings, tier)
             if f is not None:
                 known_hit.setdefault(f["key"], (f, 0))
                 known_hit[f["key"]] = (f, known_hit[f["key"]][1] + v["n"])
+                o = known_obs.setdefault(f["key"], [v["lo"], v["hi"]])
+                o[0] = min(o[0], v["lo"]); o[1] = max(o[1], v["hi"])
             else:
                 # same class as a listed finding, but outside its recorded range or with more cases
                 for kf in findings:
@@ -317,7 +320,7 @@ def run_check(pid, tier):
         extra = {
             "tree_hash": hsh,
             "repo": build.REPO,
-            "known_findings_matched": [dict(key=k, cases=n, what=f.get("what", "")) for k, (f, n) in sorted(known_hit.items())],
+            "known_findings_matched": [dict(key=k, cases=n, lo=known_obs[k][0], hi=known_obs[k][1], what=f.get("what", "")) for k, (f, n) in sorted(known_hit.items())],
             "violation_classes": [dict(key=v["key"], cases=v["n"], first=v["detail"]) for v in unlisted][:200],
         }
         write_evidence(pid, cfg, tier, seed, cov, wall, len(unlisted), extra)
